@@ -36,6 +36,10 @@ CHECKS = {
                 technique="explicit-state search on the real emulator: state = stacks of open regions of a thread (depth <= 2), every documented event of the model probed in every state against a stack reference; golden value/label table; binding pass through the real ovniemu",
                 text="For each of the eight models every nesting of depth <= 2 of its documented enter events is reached on the real emulator and every documented argument-less event is probed there: the matching leave must be accepted, every other leave refused, every non-re-entering enter accepted, and thread and CPU rows must show the documented value of the innermost open region. Also: required thread state (6 states x in/out of CPU), lint on open regions for all enter events, a depth-512 path with the 513th push refused, and .pcf labels.",
                 note="Trusted: doc/user/emulation/events.md for the event list and pairing, golden/enter_values.json (frozen after manual review), lib/pv.py. Immediate re-entry of the innermost region may go either way. Depth bound 2 (+ one 512 path)."),
+    "C12": dict(level="fault_enumeration", engine="E6 real ovniemu + lib/mutate.py", ref="DESIGN.md 5 (C12)",
+                technique="exhaustive single-corruption enumeration of four multi-model base traces (every position x every operator), each run through the real ovniemu -l; validity classified independently from the trace specification",
+                text="Four valid base traces (nOS-V with jumbo type events, Nanos6, MPI+TAMPI+marks, two looms with ranks + OpenMP/NODES/kernel; each ending like libovni does, with flush markers after the end event) x every single corruption: truncation at every byte offset, swap of every adjacent event pair with different clocks, every header byte x {00,ff,+1}, every event's model byte to a not-required and to an unregistered model, unknown event value, every wrong payload size of size-checked events, jumbo event replaced by a non-jumbo one, removal and 6-8 replacement values of every metadata key, truncated JSON. Whenever the corrupted trace is invalid by the specification, ovniemu must exit non-zero and must not print 'emulation finished ok'.",
+                note="Trusted: lib/mutate.py's classification (only corruptions certainly invalid carry a demand), lib/obs.py. Single corruptions."),
     "C13": dict(level="model_checking", engine="E6 real ovniemu + lib/pv.py", ref="DESIGN.md 5 (C13)",
                 technique="exhaustive enumeration of a finite configuration x model x history space; every accepted trace is produced by the real ovniemu binary and all .prv/.pcf/.row files are parsed and validated by an independent checker",
                 text="Looms 1-2 x processes 1-2 x threads 1-2 x CPUs 1-2 x rank on/off x 8 models x {plain, every documented enter/leave pair on all threads, nesting, tasks with shared and private type labels per process, breakdown -b, flush, affinity/state changes}: for every accepted trace timestamps are non-decreasing, rows within the declared count, header duration = last event time, every event type declared in the .pcf, every non-zero value of a state type labelled, .row names exactly the rows in the documented order.",
@@ -44,6 +48,10 @@ CHECKS = {
                 technique="exhaustive enumeration of small complete domains on the real code: all (want, have) pairs, all short strings over a 5-letter alphabet against a regular-expression reference, the +-1 version cube per model and all subsets of required models through the real ovniemu",
                 text="version_is_compatible on all 729 pairs over {0,1,2}^3; version_parse on all ~20k/98k strings of length <= 6/7 over {0,1,.,-,a} plus a malformed list; ovni_version_check_str on the +-1 cube around the library version (abort intercepted); the real ovniemu on traces requiring every version of the +-1 cube for each of the 8 models, mixed requirements across two streams in both orders, malformed strings, and all subsets of required models x one probe event per model (enabled iff required or -a).",
                 note="Trusted: the regular-expression reference of a well-formed version (leading zeros and numbers beyond int are not judged); the emulator binary built from the tree."),
+    "C19": dict(level="exploration", engine="E6 tools with ASan+UBSan and exact-size heap stream buffers", ref="DESIGN.md 5 (C19)",
+                technique="exhaustive enumeration of a stated mutation and grammar space (not sampling): every single structure-aware corruption of four base traces and every stream of 2/3 atoms from 40 valid/malformed event encodings, through ovniemu, ovnidump, ovnitop and ovnisort built with AddressSanitizer+UBSan; stream.c compiled with -Dmmap=verif_mmap so the stream lives in an exact-size heap buffer",
+                text="For every case of the space each of the four tools must terminate within 8 s with exit status 0 or 1, without signal and without sanitizer report. The space: C12's operators plus all flag bytes, clock bytes, 13 abusive jumbo size fields, cut/unterminated jumbo data, events stripped of payload, phantom payloads, abusive loom_cpus shapes and metadata values, non-object/deeply nested JSON, missing/empty stream.obs, and all 1600 (quick) / 24000 (thorough) atom sequences after a valid prefix. The claim covers this space, not all byte strings.",
+                note="Trusted: ASan/UBSan (signed-integer-overflow excluded: arithmetic on garbage clocks is outside the property), the -Dmmap wrapper (harness/mmap_heap.c). die()->abort() counts as a crash."),
 }
 
 ORDER = ["C%02d" % i for i in range(1, 21)]
